@@ -22,7 +22,29 @@ def package_table(rng, keys):
         else:
             toks = strings.random_wf_tokens(rng, rng.randint(1, 4))
             tab[k] = c01.render(rng, toks)[0]
+    # a key the table does not know although a similar one is there (other zero padding): still unknown, never resolved by a look-alike
+    for k in list(keys):
+        if tab.get(k) is not None and rng.random() < (0.7 if k.startswith("0") else 0.12):
+            twin = k.lstrip("0") if k.startswith("0") and k.lstrip("0") != "P" else "0" + k
+            if twin not in tab:
+                tab[twin], tab[k] = tab[k], None
     return tab
+
+
+def regression_cases():
+    import json
+    import os
+
+    path = os.path.join(runner.ROOT, "corpus", "resolve.json")
+    out = []
+    if os.path.exists(path):
+        for e in json.load(open(path, encoding="utf-8")):
+            s, tab = e.get("expression"), dict(e.get("packages") or {})
+            if isinstance(s, str):
+                for k in set(m.group(1) for m in PKG_RE.finditer(s)):
+                    tab.setdefault(k, None)   # a package the recorded table did not contain is unknown
+                out.append((s, tab, bool(e.get("resolve_packages", True)), bool(e.get("replace_time_conditions", True))))
+    return out
 
 
 def subst_text(s, tab, resolve_packages, replace_tc):
@@ -52,17 +74,26 @@ def run(ctx):
     rng = ctx.rng
     terms, many_terms, metas = [], [], []
     n_abbrev = 0
-    for _ in range(500 if ctx.quick else 8000):
-        toks = strings.random_wf_tokens(rng, rng.randint(1, 9))
-        s, _ot = c01.render(rng, toks)
-        # force more abbreviations: replace some plain keys by packages / time conditions, some repeated or adjacent
-        pkeys = sorted(set(m.group(1) for m in PKG_RE.finditer(s)))
-        tab = package_table(rng, pkeys)
-        rp, rt = rng.random() < 0.85, rng.random() < 0.8
-        evalimpl.set_cer(packages={k: v for k, v in tab.items()})
+    regression = regression_cases()   # corpus/resolve.json: inputs on which a past (seeded) defect showed; they run first
+    for it in range(len(regression) + (500 if ctx.quick else 8000)):
+        if it < len(regression):
+            s, tab, rp, rt = regression[it]
+            absent = set()
+        else:
+            toks = strings.random_wf_tokens(rng, rng.randint(1, 9))
+            s, _ot = c01.render(rng, toks)
+            if rng.random() < 0.15:   # a package key written with leading zeros: a different key than its unpadded look-alike
+                s = PKG_RE.sub(lambda m: m.group(0).replace(m.group(1), "0" + m.group(1), 1), s, count=1)
+            # force more abbreviations: replace some plain keys by packages / time conditions, some repeated or adjacent
+            pkeys = sorted(set(m.group(1) for m in PKG_RE.finditer(s)))
+            tab = package_table(rng, pkeys)
+            rp, rt = rng.random() < 0.85, rng.random() < 0.8
+            # an unknown package is either absent from the resolver's table or mapped to nothing
+            absent = {k for k, v in tab.items() if v is None and rng.random() < 0.7}
+        evalimpl.set_cer(packages={k: v for k, v in tab.items() if k not in absent})
         pre = c01.parse_impl(s)
         res = evalimpl.outcome(lambda: asyncio.run(resolve(s, resolve_packages=rp, replace_time_conditions=rt)))
-        desc = {"expression": s, "packages": tab, "resolve_packages": rp, "replace_time_conditions": rt}
+        desc = {"expression": s, "packages": {k: v for k, v in tab.items() if k not in absent}, "resolve_packages": rp, "replace_time_conditions": rt}
         if pre[0] == "ok":
             obs = c01.obs_term(res) if res[0] == "ok" else f"(Exn {res[1]})"
             terms.append(f"({gtable(tab, c01.parse_impl)}, {gbool(rp)}, {gbool(rt)}, {strings.lark_to_gallina(pre[1])}, {obs})")
